@@ -61,10 +61,17 @@ struct Sched {
 inline Sched& S() { static Sched *s = new Sched(); return *s; }   // never destroyed: objects with static storage in the code under test (parmcb keeps a global_control alive until exit) may outlive any static of ours
 inline int& depth() { static thread_local int d = 0; return d; }
 
-// random cut points: returns leaf boundaries b_0=0 < b_1 < ... < b_L = n
-inline std::vector<size_t> cuts(Rng &r, size_t n) {
+// random cut points: returns leaf boundaries b_0=0 < b_1 < ... < b_L = n.  A range that carries a grainsize g > 1 is only ever
+// split the way oneTBB splits a blocked_range: at its midpoint, and only while it is divisible (size > g); with the default
+// grainsize of 1 every partition into non-empty consecutive sub-ranges is a legal one.
+inline void halve(Rng &r, size_t lo, size_t hi, size_t g, double p, std::vector<size_t> &b) {
+    if (hi - lo > g && r.real() < p) { size_t mid = lo + (hi - lo) / 2; halve(r, lo, mid, g, p, b); halve(r, mid, hi, g, p, b); }
+    else b.push_back(hi);
+}
+inline std::vector<size_t> cuts(Rng &r, size_t n, size_t grain = 1) {
     std::vector<size_t> b; b.push_back(0);
     if (n == 0) return b;
+    if (grain > 1) { double m = r.real(); double p = m < 0.15 ? 0.0 : m < 0.5 ? 1.0 : 0.3 + 0.7 * r.real(); halve(r, 0, n, grain, p, b); return b; }
     double mode = r.real();
     if (mode < 0.12) { b.push_back(n); return b; }                       // no split at all
     if (mode < 0.27) { for (size_t i = 1; i <= n; i++) b.push_back(i); return b; } // singletons
@@ -121,6 +128,8 @@ public:
 namespace vshim_detail {
 template<class R> inline std::size_t range_len(const R &r) { return r.empty() ? 0 : (std::size_t) (r.end() - r.begin()); }
 template<class R> inline R sub(const R &r, std::size_t a, std::size_t b) { return R(r.begin() + a, r.begin() + b); }
+template<class R> inline auto grain_of(const R &r, int) -> decltype(r.grainsize(), std::size_t()) { return (std::size_t) r.grainsize(); }
+template<class R> inline std::size_t grain_of(const R &, long) { return 1; }
 }
 
 template<class Range, class Body>
@@ -129,7 +138,7 @@ void parallel_for(const Range &range, const Body &body) {
     uint64_t reg = S.region.fetch_add(1);
     vshim::Rng r(vshim::mix(S.seed, reg));
     std::size_t n = vshim_detail::range_len(range);
-    std::vector<std::size_t> b = vshim::cuts(r, n);
+    std::vector<std::size_t> b = vshim::cuts(r, n, vshim_detail::grain_of(range, 0));
     std::size_t L = b.size() - 1;
     {
         std::lock_guard<std::mutex> g(S.mu);
@@ -148,7 +157,7 @@ Value parallel_reduce(const Range &range, const Value &identity, const Func &fun
     uint64_t reg = S.region.fetch_add(1);
     vshim::Rng r(vshim::mix(S.seed, reg));
     std::size_t n = vshim_detail::range_len(range);
-    std::vector<std::size_t> b = vshim::cuts(r, n);
+    std::vector<std::size_t> b = vshim::cuts(r, n, vshim_detail::grain_of(range, 0));
     std::size_t L = b.size() - 1;
     if (n == 0) {
         std::lock_guard<std::mutex> g(S.mu); S.regions++; S.reduce_regions++; S.empty_regions++; S.shapes.insert(0xE0);
